@@ -251,6 +251,14 @@ def _r4(ctx):
     if len(ksel) == 1:
         node = ksel[0]
         v = flow.subst(node.value)
+        # list(filter(lambda x: COND, seq))  ==  [x for x in seq if COND]
+        bl = pm.match("list(filter(M_f, M_seq))", v)
+        if bl is not None and isinstance(bl["M_f"], ast.Lambda) and len(bl["M_f"].args.args) == 1:
+            lam = bl["M_f"]
+            nm = ast.Name(id=lam.args.args[0].arg, ctx=ast.Load())
+            v = ast.ListComp(elt=nm, generators=[ast.comprehension(target=ast.Name(id=nm.id, ctx=ast.Store()), iter=bl["M_seq"],
+                                                                   ifs=[lam.body], is_async=0)])
+            ast.fix_missing_locations(v)
         if isinstance(v, ast.ListComp) and len(v.generators) == 1:
             g = v.generators[0]
             it, wr = strip_wrappers(g.iter, ("list", "tuple"))
@@ -346,9 +354,11 @@ def _r5(ctx):
               "get_reg_changes: no mnemonic -> no register change", g.where(first), "get_reg_changes guard changed", g.qname,
               "reg changes neutral")
     s = ctx.func("ArchSemantics.get_throughput_sum")
-    sel = pm.find("M_p = [M_i.port_pressure for M_i in %s if M_i.throughput != 0.0]" % s.params()[0], s.node)
-    ctx.check(bool(sel), "R5", "summary sums the lines with throughput != 0 only", s.where(), "summary selection changed", s.qname,
-              "summary selection")
+    sh = C.aggregator_shape(ctx)
+    ctx.judge(sh["ok"] and sh["filter"] == ["I.throughput != 0.0"] and sh["rows_elt"] == "I.port_pressure", sh["ok"], "R5",
+              "summary sums the lines with throughput != 0 only", s.where(),
+              "the summary no longer sums exactly the lines with throughput != 0.0 (filter: %s)" % sh["filter"] if sh["ok"] else sh["why"],
+              s.qname, "summary selection")
     for q in ("KernelDG.find_depending", "KernelDG.is_read", "KernelDG.is_written", "KernelDG.is_memload", "KernelDG.is_memstore"):
         f = ctx.func(q)
         g2 = [n for n in ast.walk(f.node) if isinstance(n, ast.If) and "semantic_operands is None" in U(n.test)]
